@@ -80,9 +80,12 @@ class C07(Prop):
                 sig = dict((k, [(t, rng.choice(lang.SMALL)) for (t, _) in base]) for k in names)
             case['signals'] = sig_text(sig)
         case['nperturb'] = 8 if (ctx is None or ctx.tier == 'quick') else 32
+        case['structs'] = kind == 'ct_on' and rng.random() < 0.25
         return case
 
     # -- one execution of the real monitor: list of (time, value) claims ------------------------------
+    _structs = False
+
     def run_real(self, kind, text, names, data=None, sig=None, prelude=None):
         if kind == 'dt_off':
             res = drive.values(drive.dt_offline(text, names, data))
@@ -93,7 +96,7 @@ class C07(Prop):
         if kind == 'ct_off':
             out = drive.ct_offline(text, names, sig)
         else:
-            m = drive.Mon('ct', {'text': text, 'vars': names})
+            m = drive.Mon('ct', dict({'text': text, 'vars': names}, **({'structify': True} if self._structs else {})))
             n = len(sig[names[0]])
             half = max(1, n // 2)
             out = []
@@ -140,6 +143,9 @@ class C07(Prop):
             end = min(s[-1][0] for s in sig.values())
             try:
                 satf = ref_bool.sat_dense(f, sig)
+                self._structs = bool(case.get('structs')) and kind == 'ct_on'
+                if self._structs:
+                    v.info['class:struct-inputs'] = 1
                 out = self.run_real(kind, text, names, sig=sig)
             except refd.Undefined:
                 v.skip = 'reference undefined (domain error)'
